@@ -184,6 +184,14 @@ func (p *Packer) Pack(src string, w io.Writer) (*Meta, error) {
 		}
 	}
 
+	// Only a directory can be packed. Walking anything else visits just
+	// the root, for which there is no entry: an empty archive, and no error.
+	if info, err := os.Stat(src); err != nil {
+		return nil, err
+	} else if !info.IsDir() {
+		return nil, fmt.Errorf("source %q is not a directory", src)
+	}
+
 	// Walk the tree of files.
 	err = filepath.Walk(src, p.packWalkFn(src, src, src, tarW, meta, ignoreRules, nil))
 	if err != nil {
